@@ -370,6 +370,10 @@ def oracles(lines):
     written = {}        # (sink, id) -> count
     write_order = []    # (sink, id, lvl, ts)
     pending_by_actor = {}   # actor -> id of the log call it is parked in
+    n_actors = len({w[1] for (w, _, _) in rec["ops"] if w[0] == "T"})
+    idle = dict(streak=0, epoch=0)   # consecutive backend passes that wrote nothing and flushed (C09 end to end)
+    park_mark = {}          # actor -> (epoch, streak) when its log call parked / last retried
+    still_blocked = []      # (actor, id, passes) — retries that failed although the backend had found every queue empty
     flush_wait = {}     # actor -> dict(snapshot of ids that must be out, sinks)
     has_faults = any(s["wthrow"] for s in rec["sinks"].values())
     has_flush_faults = any(s["fthrow"] for s in rec["sinks"].values())
@@ -422,6 +426,7 @@ def oracles(lines):
             st = stmts.setdefault(i, dict(actor=a, g=g, lvl=lvl, ts=t_now, enq=None, ret=None, op=op, sinks=list(loggers_sinks.get(g, []))))
             if "parked" in res:
                 pending_by_actor[a] = i
+                park_mark[a] = (idle["epoch"], idle["streak"])
                 if "parked:sleep" in res:
                     live_logged.add(a)   # the context exists once the reservation was attempted
                 return
@@ -462,6 +467,11 @@ def oracles(lines):
             if res.startswith("id=") and a in pending_by_actor:
                 i = pending_by_actor.pop(a)
                 finish_log(i, res, t_now)
+            elif res.startswith("parked:sleep") and a in pending_by_actor and a in park_mark:
+                ep, base = park_mark[a]
+                passes = idle["streak"] - base if ep == idle["epoch"] else idle["streak"]
+                if passes >= n_actors + 3:
+                    still_blocked.append((a, pending_by_actor[a], passes))
             elif res == "done" and a in flush_wait:
                 check_flush_done(a)
 
@@ -560,6 +570,14 @@ def oracles(lines):
         if op in ("P", "X"):
             if op == "X":
                 xs_seen = True
+            fe = list(flatten_events(evs))
+            # (a statement newer than now - grace stays in its queue, so only passes after that window count)
+            settled = all(now > st["ts"] + grace for st in stmts.values())
+            if op == "P" and settled and fe and any(e.startswith("fl:") for e in fe) and not any(e.startswith(("w:", "[@")) for e in fe):
+                idle["streak"] += 1
+            else:
+                idle["streak"] = 0
+                idle["epoch"] += 1
             for e in flatten_events(evs):
                 if e.startswith("[@"):
                     m = re.match(r"\[@\d+\.\d+ (\S+) -> (.*)\]$", e)
@@ -573,6 +591,9 @@ def oracles(lines):
                     handle_event(e)
             continue
         handle_front(w, res, now)
+        if op != "Q" and res != "noop" and not res.startswith("parked:sleep"):
+            idle["streak"] = 0
+            idle["epoch"] += 1
         for e in flatten_events(evs):
             handle_event(e)
 
@@ -639,6 +660,12 @@ def oracles(lines):
                     if prev is not None and ts < prev[1]:
                         viol.append(("C05", "sink %d: id=%d (ts=%d) written after id=%d (ts=%d)" % (s, i, ts, prev[0], prev[1])))
                     prev = (i, ts)
+    # ---- C09 end to end: a blocked producer gets through once the backend has emptied its queue ------------------------
+    # (passes = consecutive backend passes that found nothing to write and flushed, with no frontend activity in between;
+    #  more of them than there are threads means every queue was found empty, and the reader publishes when it finds that)
+    if not dropping:
+        for a, i, passes in still_blocked[:1]:
+            viol.append(("C09", "log call id=%d of actor %d was refused again after %d backend passes that found every queue empty: a drained queue must accept a statement that fits its capacity" % (i, a, passes)))
     # ---- C20: retained contexts after the drain -------------------------------------------------------------------
     if q_snaps and not removed_loggers:
         k, res, live_then, exited_then, parked_then = q_snaps[-1]
